@@ -7,7 +7,11 @@ LEVEL = "model_checking"
 
 MEM_BASE = dict(InitN=3, InitCap=4, MaxOps=2, NDisp=1, NAdmin=2, Classes={1},
                 OpKinds={"add", "delidx", "delkey"}, DeleteInPlace=False, UseMutex=True, TruncateTail=False,
-                CoarseAdmin=False, FeKinds=set(), FeBl=0, FeRw=0, FeAgg=0, LoadTwice=False)
+                CoarseAdmin=False, FeKinds=set(), FeBl=0, FeRw=0, FeAgg=0, LoadTwice=False,
+                UpdCow=False, LoadOutsideLock=set(), TrackLin=False)
+# one ROUTE: the list = its destinations, modDest (updidx) is a copy-on-write operation under the route lock, the route's own
+# filter (modRoute) is another part of the same configuration value (front-end list rw); two admins that overlap
+MEM_ROUTE = dict(MEM_BASE, NAdmin=2, OpKinds={"add", "delidx", "updidx"}, FeKinds={"rw+"}, UpdCow=True, TrackLin=True)
 # the whole table: routes (cell by cell) + front end (blacklist, rewriters, aggregators), one configuration value
 FE_ALL = {"bl+", "bl-", "rw+", "rw-", "agg+", "agg-"}
 MEM_WHOLE = dict(MEM_BASE, InitN=2, InitCap=2, NAdmin=1, OpKinds={"add", "delkey"}, FeKinds=FE_ALL, FeBl=1, FeRw=1, FeAgg=1)
@@ -32,8 +36,11 @@ def model_check(ctx):
 
     grid = [dict(MEM_BASE),
             dict(MEM_BASE, Classes={1, 2}, NAdmin=1, OpKinds={"updidx", "updkey", "delidx", "add"}),
-            dict(MEM_WHOLE, Classes=ctx.pick({1}, {1, 2}), NAdmin=ctx.pick(1, 2))]
+            dict(MEM_WHOLE, Classes=ctx.pick({1}, {1, 2}), NAdmin=ctx.pick(1, 2)),
+            dict(MEM_ROUTE)]
     if not q:
+        grid += [dict(MEM_ROUTE, MaxOps=3, NDisp=0, InitN=2, InitCap=2),
+                 dict(MEM_ROUTE, Classes={1, 2}, OpKinds={"delidx", "updidx", "updkey"}, FeKinds=set())]
         grid += [dict(MEM_WHOLE, MaxOps=3, InitN=1, InitCap=1),
                  dict(MEM_WHOLE, NDisp=2, FeKinds={"bl+", "rw+", "rw-", "agg+"}),
                  dict(MEM_BASE, InitCap=3),                              # full array: the next add reallocates
@@ -44,7 +51,22 @@ def model_check(ctx):
                       OpKinds={"add", "delidx", "delkey", "updidx"})]
     grid.sort(key=lambda c: -(c["MaxOps"] * 10 + c["NAdmin"] + c["NDisp"] + len(c["Classes"])))      # the long ones first
     for c in grid:
-        job(consts=c, invariants=MEM_INV, timeout=ctx.pick(900, 3000))
+        job(consts=c, invariants=MEM_INV + ["AdminLinearizable"], timeout=ctx.pick(900, 3000))
+    # overlapping admin operations: modDest that Loads the configuration BEFORE it takes the route lock publishes a stale
+    # configuration -- an overlapping delDest (or modRoute: the other part of the value) is reverted.  Needs the overlap:
+    # with one admin (any sequential history) the deviation is invisible.
+    lol = dict(MEM_ROUTE, LoadOutsideLock={"updidx"}, FeKinds=set(), OpKinds={"delidx", "updidx"})
+    job(must_violate("AdminLinearizable", "LoadOutsideLock={updidx}: delDest overlapping modDest is not rejected as AdminLinearizable",
+                     r'op \|-> "delidx"[\s\S]*op \|-> "updidx"|op \|-> "updidx"[\s\S]*op \|-> "delidx"'),
+        consts=dict(lol), invariants=["AdminLinearizable"], expect_ok=False, count=False, tag="nv_lol_lin")
+    job(must_violate("ViewOK", "LoadOutsideLock={updidx} does not violate ViewOK in the model"),
+        consts=dict(lol), invariants=["ViewOK"], expect_ok=False, count=False, tag="nv_lol_view")
+    job(must_violate("AdminLinearizable", "LoadOutsideLock={updidx}: modRoute overlapping modDest is not rejected as AdminLinearizable",
+                     r'l \|-> "rw"'),
+        consts=dict(lol, OpKinds={"updidx"}, FeKinds={"rw+"}), invariants=["AdminLinearizable"], expect_ok=False, count=False,
+        tag="nv_lol_rt")
+    job(consts=dict(lol, NAdmin=1, OpKinds={"add", "delidx", "updidx"}, FeKinds={"rw+"}), invariants=MEM_INV + ["AdminLinearizable"],
+        count=False, tag="nv_lol_seq")
     # non-vacuity: the pinned delete (cells of the shared array shifted in place) and a missing mutex are rejected
     job(must_violate("Atomic", "DeleteInPlace=TRUE does not violate Atomic in the model"),
         consts=dict(MEM_BASE, DeleteInPlace=True), invariants=["Atomic"], expect_ok=False, count=False, tag="nv_atomic")
@@ -85,6 +107,8 @@ def model_check(ctx):
     ctx.cov["model_deviations_rejected"] = ["LoadTwice=TRUE -> Atomic with 2 changes (%s; not with 1 change)" %
                                             ", ".join("%s then routes %s" % (sorted(a)[0], sorted(b)[0]) for a, b in pairs),
                                             "DeleteInPlace=TRUE -> Atomic, SnapshotImmutable", "UseMutex=FALSE -> ViewOK",
+                                            "LoadOutsideLock={updidx} -> AdminLinearizable, ViewOK with 2 overlapping admins "
+                                            "(delDest || modDest, modRoute || modDest; not with 1 admin)",
                                             "TruncateTail=TRUE -> SnapshotImmutable (2 ops), Atomic (3 ops: delete-last, "
                                             "delete-last, add; not with 2 complete ops)"]
 
@@ -92,7 +116,8 @@ def model_check(ctx):
 def gen_schedules(ctx, kind, tag, **kw):
     c = dict(InitN=3, MaxOps=2, NDisp=1, Classes={1}, AddFilters={0}, UpdFilters={1}, OpKinds={"add", "delidx"},
              StepWise=True, KeyMod=1000, DelTail=False,
-             FeGate=False, RouteGates=True, FeKinds=set(), FeFilters=set(), FeBl=0, FeRw=0, FeAgg=0, FeWindow=False, Mixed=False)
+             FeGate=False, RouteGates=True, FeKinds=set(), FeFilters=set(), FeBl=0, FeRw=0, FeAgg=0, FeWindow=False, Mixed=False,
+             Overlap=False)
     c.update(kw)
     r = ctx.tlc("TableSched", "TableSched.cfg", consts=c, workers=1, timeout=1200, tag=tag)
     out = []
@@ -103,6 +128,10 @@ def gen_schedules(ctx, kind, tag, **kw):
             out[-1].update(febl=c["FeBl"], ferw=c["FeRw"], feagg=c["FeAgg"], rgate=c["RouteGates"], win=c["FeWindow"])
     if kind == "fe" and not out:
         raise Machinery("no whole-table schedules generated")
+    if kind == "ovl" and not all(sum(1 for x in o["steps"] if x["ev"] in ("ov1", "ov2")) == 2 for o in out):
+        raise Machinery("kind ovl: a schedule without its overlapping pair")
+    if kind == "ovl" and not out:
+        raise Machinery("no schedules of overlapping admin operations generated")
     return out
 
 
@@ -135,6 +164,12 @@ def schedules(ctx):
     gen("rroute", OpKinds={"add", "delkey", "updkey"}, InitN=2, Classes={1, 2}, UpdFilters={1},
         AddFilters={0, 2}, MaxOps=ctx.pick(1, 2))
     gen("rroute", OpKinds={"delkey"}, InitN=3, MaxOps=ctx.pick(1, 2))
+    # OVERLAPPING admin operations on one real route: a DelDestination parked inside Shutdown (route lock held, configuration
+    # loaded) while a second operation -- delDest / modDest / add / modRoute, every index incl. beyond the end -- is started
+    gen("ovl", OpKinds={"add", "delidx", "updidx", "rtupd"}, NDisp=0, Overlap=True, InitN=3, MaxOps=2)
+    if not q:
+        gen("ovl", OpKinds={"add", "delidx", "updidx", "rtupd"}, NDisp=0, Overlap=True, InitN=2, MaxOps=3)
+        gen("ovl", OpKinds={"delidx", "updidx", "rtupd"}, NDisp=0, Overlap=True, InitN=4, MaxOps=2, UpdFilters={1, 2})
     # lists without a gate point inside their loop: whole dispatches between operations + white box
     gen("rw", OpKinds={"add", "delidx"}, StepWise=False, MaxOps=ctx.pick(2, 3))
     if not q:
@@ -166,7 +201,7 @@ def split(events):
         if e["ev"] == "hist":
             curb = [e]
             blocks.append(curb)
-        elif e["ev"] in ("fin", "obs_mismatch"):
+        elif e["ev"] in ("fin", "obs_mismatch", "note", "gatefail"):
             continue
         elif curb is not None:
             curb.append(e)
@@ -218,9 +253,39 @@ def validate(ctx, name, blocks, check_dead, on_bad, max_rounds=6, check_cells=Tr
 
 def last_op(block, i):
     for e in reversed(block[:i + 1]):
-        if e["ev"] == "opbegin":
+        if e["ev"] in ("opbegin", "acall"):
             return e
     return {}
+
+
+def overlapped(block, i):
+    """the operations judged together at the aview event i, with what they returned"""
+    ops = {}
+    for e in block[:i]:
+        if e["ev"] in ("opdone", "aview"):
+            ops = {}
+        elif e["ev"] == "acall":
+            ops[e["a"]] = dict(e)
+        elif e["ev"] == "aret" and e["a"] in ops:
+            ops[e["a"]].update(err=e["err"], errs=e.get("errs", ""))
+    return [ops[a] for a in sorted(ops)]
+
+
+def main_view_before(block, i):
+    """for the report only: the destination list ([id, filter] pairs) as last shown before event i"""
+    view, l = [], "main"
+    for e in block[:i]:
+        if e["ev"] == "opbegin":
+            l = e.get("l", "main")
+        elif e["ev"] == "aview" or (e["ev"] == "opdone" and l == "main"):
+            view = e["view"]
+    return view
+
+
+def op_text(o):
+    if o.get("l") == "rt":
+        return "modRoute prefix=%s" % ("c%d." % o["f"] if o["f"] else "''")
+    return {"add": "addDest #%(e)s", "delidx": "delDest %(i)s", "updidx": "modDest %(i)s prefix=c%(f)s."}.get(o["op"], "%(op)s") % o
 
 
 def changed_snapshots(block, i):
@@ -315,6 +380,16 @@ def run(ctx):
                     "loaded it then may still be iterating it): %s" %
                     (op.get("op"), op.get("l"), "; ".join("snapshot #%d of %s published as %s reads %s now" % (
                         c["snapshot"], c["list"], c["published"], c["now"]) for c in ch[:3]) or "no earlier reading?"))
+        elif clause == "AdminLinearizable":
+            ops = overlapped(b, i)
+            prev = main_view_before(b, i)
+            sig = "admin-overlap-not-linearizable kind=%s ops=%s" % (kind, "||".join("%s.%s" % (o["l"], o["op"]) for o in ops))
+            what = ("route with destinations %s: '%s' was in flight (inside the destination's Shutdown, route lock %s) when '%s' was "
+                    "issued; both returned (%s) and the route now lists destinations %s with route filter %s: not the result of "
+                    "applying the two changes one after the other in either order -- a change was lost / applied to a stale "
+                    "configuration" % (prev, op_text(ops[0]) if ops else "?", "held" if ev.get("locked") else "NOT held",
+                                       op_text(ops[1]) if len(ops) > 1 else "?",
+                                       ", ".join("err=%s" % o.get("err") for o in ops), ev.get("view"), ev.get("rtview")))
         elif clause == "ViewOK":
             sig = "view list=%s kind=%s op=%s" % (op.get("l"), kind, op.get("op"))
             what = "after %s %s the table shows %s" % (op.get("op"), {k: op.get(k) for k in "efik"}, ev.get("view"))
@@ -359,9 +434,16 @@ def run(ctx):
     # ---------------------------------------------------------- evidence
     allb = blocks + lblocks
     ends = [e for b in allb for e in b if e["ev"] == "end"]
-    ops = [e for b in allb for e in b if e["ev"] == "opdone"]
+    ops = [e for b in allb for e in b if e["ev"] in ("opdone", "aview")]
     if not ends or not ops:
         raise Machinery("dead driver: no dispatches / operations recorded")
+    # overlapping admin operations: every pair was really in flight together (the driver fails otherwise); how the second waited
+    ovl = [e for b in blocks if b[0].get("kind") == "ovl" for e in b if e["ev"] == "aview"]
+    n_ovl = sum(1 for s in S if s["kind"] == "ovl")
+    if len(ovl) != n_ovl and not ctx.violations:
+        raise Machinery("kind ovl: %d overlapped pairs recorded for %d schedules" % (len(ovl), n_ovl))
+    if ovl and not any(e.get("locked") and e.get("g2") == "lock" for e in ovl):
+        raise Machinery("kind ovl: in no history the second operation waited for the route lock held by the first (vacuous gate)")
     overl = 0
     for b in lblocks:
         open_d, cnt = set(), 0
@@ -376,14 +458,18 @@ def run(ctx):
     if lblocks and overl == 0:
         raise Machinery("load histories: no operation overlapped a dispatch (vacuous)")
     distinct = set(json.dumps([s["kind"], s["steps"]], sort_keys=True) for s in S
-                   if any(x["ev"] == "op" for x in s["steps"]) and any(x["ev"] in ("start", "disp") for x in s["steps"]))
+                   if (any(x["ev"] == "op" for x in s["steps"]) and any(x["ev"] in ("start", "disp") for x in s["steps"]))
+                   or any(x["ev"] == "ov1" for x in s["steps"]))
     cov = ctx.cov
     cov["evaluations"] = len(ends) + len(ops)
     cov["distinct_nontrivial"] = len(distinct)
     cov["schedules_by_kind"] = kinds
     cov["dispatches_judged"] = len(ends)
     cov["operations_judged"] = len(ops)
-    cov["refused_operations"] = sum(1 for e in ops if e["err"])
+    cov["refused_operations"] = sum(1 for e in ops if e.get("err"))
+    cov["overlapping_admin_pairs_judged"] = len(ovl)
+    cov["overlapping_admin_pairs_second_waited_for_route_lock"] = sum(1 for e in ovl if e.get("locked") and e.get("g2") == "lock")
+    cov["overlapping_admin_pairs_by_second_operation"] = ovl_cov(blocks)
     cov["load_ops_overlapping_a_dispatch"] = overl
     cov["whole_table_dispatches_with_two_lists_changed_in_flight"] = whole_table_cov(blocks)
     cov["rule"] = ("whole table (kind fe): every schedule (TLC) in which one dispatcher is held inside the front end of Dispatch -- "
@@ -396,9 +482,15 @@ def run(ctx):
                    "sendAllMatch route; rewriter/blacklist/aggregator lists with whole dispatches), plus every interleaving of 3 add / "
                    "delete-LAST operations with one held dispatcher (routes, destinations); white box after every operation on every "
                    "list: all slices published so far in the history re-read and compared cell by cell; "
+                   "overlapping admin operations (kind ovl, TLC): every history of <=2-3 operations on one real route whose last two "
+                   "OVERLAP -- a DelDestination of an existing destination parked inside Destination.Shutdown (relay held by the "
+                   "destination hook; it holds the route lock and has loaded the configuration) while a second delDest / modDest / "
+                   "addDest / modRoute (every index incl. the one that is valid before and beyond the end after the delete) is "
+                   "started and comes to wait for the route lock; calls, returns and the resulting route snapshot judged by "
+                   "TableOps.Linearizable (some order of the two, each refused exactly when that order says so); "
                    "load: seeded random admin histories (commands and Go API, valid/unknown/out-of-range arguments) under 2-6 "
                    "free-running dispatchers; every end/opdone event judged by TableTrace.tla; distinct = distinct "
-                   "(kind, schedule) containing both an operation and a dispatch")
+                   "(kind, schedule) containing both an operation and a dispatch, or an overlapping pair of operations")
     for s in S:
         if s["kind"] == "route" and len(cov["samples"]) < 1 and any(x["ev"] == "step" for x in s["steps"][:2]):
             ctx.sample(dict(kind=s["kind"], schedule=[(x["ev"], x["op"], x["d"], x["e"], x["k"]) for x in s["steps"]]))
@@ -406,6 +498,11 @@ def run(ctx):
         if b[0]["kind"] == "dest" and len(cov["samples"]) < 3 and any(e["ev"] == "end" and len(e["vis"]) > 1 for e in b):
             ctx.sample(dict(kind="dest", events=[{k: v for k, v in e.items() if k in ("ev", "op", "i", "e", "d", "vis", "err", "view")}
                                                  for e in b][:14]))
+            break
+    for b in blocks:
+        if b[0]["kind"] == "ovl":
+            ctx.sample(dict(kind="ovl", events=[{k: v for k, v in e.items() if k in ("ev", "a", "l", "op", "i", "e", "f", "err", "view", "rtview", "locked", "g2")}
+                                                for e in b if e["ev"] in ("acall", "aret", "aview")]))
             break
     ctx.sample(dict(load_history_events=len(lblocks[0]) if lblocks else 0))
     ctx.assumptions += [
@@ -419,12 +516,35 @@ def run(ctx):
         "comparison (SnapshotImmutable) plus free-running load",
         "the fate of a metric (dropped by the blacklist / consumed by a drop-raw aggregator) is read off the table's own Tracef lines "
         "and cross-checked per history against the table's blacklist counter",
+        "overlapping admin operations are forced on ONE route (destination list + route filter) by parking the first inside "
+        "Destination.Shutdown; only DelDestination can be parked while it holds the route lock without a new hook, so the first "
+        "operation of a pair is always a delete.  Two TABLE-level operations (addRoute, delRoute, addBlack, ...) are not forced to "
+        "overlap: they run concurrently only in the load histories (one admin goroutine there), i.e. a Load outside the TABLE lock "
+        "is covered by the model (LoadOutsideLock) and by the race detector of other checks, not by a forced schedule here",
         "destinations point at a closed loopback port; a visit is observed at the Tracef call preceding `dest.In <- buf` (logrus hook "
         "installed by the driver, also the gate) and cross-checked against the destinations' conn_down_no_spool counters",
     ]
     cov["trusted_base"] = ["TLC", "harness/tbl driver (records only)", "aggregator.NewMocked's clock as the gate inside Dispatch; "
                            "the 'table dropped ...' Tracef lines of Table.Dispatch as observation of the fate", "table.VerifRawConfig / route.VerifRawDests accessors (the driver keeps every slice header it saw published and re-reads all of them after every operation)",
-                           "the Tracef call in route.Dispatch as observation point inside real routes"]
+                           "the Tracef call in route.Dispatch as observation point inside real routes",
+                           "destination.VerifSetHook: points relay.loop (gate: parks a destination's relay so that Shutdown waits) and "
+                           "relay.shutdown (clean-up only); runtime.Stack goroutine states as evidence that the first operation is "
+                           "inside Destination.Shutdown and the second waits for a mutex asked for by a route/table function"]
+
+
+def ovl_cov(blocks):
+    """kind ovl: overlapped pairs by (second operation, how it waited), measured on the recorded events"""
+    out = {}
+    for b in blocks:
+        if b[0].get("kind") != "ovl":
+            continue
+        for i, e in enumerate(b):
+            if e["ev"] == "aview":
+                ops = overlapped(b, i)
+                if len(ops) == 2:
+                    k = "%s.%s/%s" % (ops[1]["l"], ops[1]["op"], e.get("g2"))
+                    out[k] = out.get(k, 0) + 1
+    return out
 
 
 def whole_table_cov(blocks):
@@ -491,4 +611,31 @@ def selftest(ctx, blocks):
         break
     if not done:
         raise Machinery("binding self-test: no whole-table history (AddBlacklist, AddRoute under a held dispatcher)")
+    # overlapping admin operations: the outcome of a modDest that publishes the configuration it loaded BEFORE an overlapping
+    # delDest took effect (the deleted destination is listed again), written into a recorded pair
+    done = False
+    for b in blocks:
+        if b[0]["kind"] != "ovl":
+            continue
+        av = next((i for i, e in enumerate(b) if e["ev"] == "aview"), None)
+        if av is None:
+            continue
+        ops = overlapped(b, av)
+        before = main_view_before(b, av)
+        if len(ops) != 2 or ops[1]["op"] != "updidx" or ops[1]["l"] != "main" or ops[0]["err"] or ops[1]["err"] \
+                or ops[1]["i"] >= len(before) - 1:
+            continue
+        flat = copy.deepcopy(b)
+        stale = [list(x) for x in before]
+        stale[ops[1]["i"]][1] = ops[1]["f"]
+        flat[av]["view"] = stale
+        hit = []
+        validate(ctx, "selftest4", split(flat), False, lambda bb, i, c: hit.append((bb[i], c)), max_rounds=1)
+        if not hit or hit[0][1] != "AdminLinearizable" or hit[0][0] != flat[av]:
+            raise Machinery("binding self-test failed: a route that lists a deleted destination again after delDest || modDest was "
+                            "not rejected as AdminLinearizable (%s)" % hit[:1])
+        done = True
+        break
+    if not done:
+        raise Machinery("binding self-test: no history with delDest || modDest (both accepted)")
     ctx.cov["binding_selftests"] = "passed"
